@@ -7,7 +7,10 @@ From UV Require Export Base.Common Model.Record Model.Forge.
 Open Scope N_scope.
 
 Inductive case :=
-| CStream (vers kind macsize suite bytes_sent seq : N) (ops : list (N * N)) (recs : list (N * N * N * bytes)).
+| CStream (vers kind macsize suite bytes_sent seq : N) (ops : list (N * N)) (recs : list (N * N * N * bytes))
+(* a peer sends the pattern (0 = zero-length application data record, n = write of n bytes); the reader
+   delivered [delivered] bytes and did / did not end with an error other than EOF *)
+| CEmpty (vers kind macsize : N) (pattern : list N) (delivered : N) (errored : bool).
 
 Definition model_conn (vers kind macsize suite bytes_sent seq : N) : conn :=
   let ci :=
@@ -53,11 +56,59 @@ Definition rec_eqb (a b : N * N * N * bytes) : bool :=
   let '(t1, v1, n1, e1) := a in let '(t2, v2, n2, e2) := b in
   (t1 =? t2) && (v1 =? v2) && (n1 =? n2) && bytes_eqb e1 e2.
 
+(* the reader matching [model_conn]: same keys, CBC built for reading *)
+Definition reader_of (c : conn) : conn :=
+  let o := cn_out c in
+  let ci := match h_cipher o with
+            | Some x => Some (mkCipher (c_kind x) (c_alg x) (c_key x) (c_iv x) true (c_pos x) (c_bs x))
+            | None => None end in
+  mkConn (cn_vers c) true (cn_suite c) (mkHalf (h_vers o) ci (h_mac o) (h_seq o) None None (h_secret o)) half0
+         [] [] 0 0 0 false.
+
+(* the peer's stream: conn_write for data, one sealed record with empty payload for 0
+   (what hooks/verif_c28.go VerifWriteEmptyRecord does) *)
+Fixpoint pattern_wire (c : conn) (pat : list N) (wire : bytes) : option bytes :=
+  match pat with
+  | [] => Some wire
+  | n :: r =>
+    if n =? 0 then
+      let v := wire_vers (cn_vers c) in
+      match encrypt toy (cn_out c) [rtAppData; (v / 256) mod 256; v mod 256; 0; 0] [] (zeros 16) with
+      | Ok (rec, o) => pattern_wire (with_out c o (cn_bytesSent c + len rec) (cn_packetsSent c)) r (wire ++ rec)
+      | _ => None
+      end
+    else
+      match conn_write toy c (zeros (N.to_nat n)) rnd0 with
+      | Ok (w, _, c') => pattern_wire c' r (wire ++ w)
+      | _ => None
+      end
+  end.
+
+(* Read with a 4096-byte buffer until the call blocks (end of the stream) or fails *)
+Fixpoint read_all (fuel : nat) (c : conn) (wire : bytes) (got : N) : N * bool :=
+  match fuel with
+  | O => (got, true)
+  | S f =>
+    match conn_read toy c wire 4096 rnd0 with
+    | Ok (Some d, c', wire', _) => read_all f c' wire' (got + len d)
+    | Ok (None, _, _, _) => (got, false)
+    | _ => (got, true)
+    end
+  end.
+
 Definition check (c : case) : bool :=
   match c with
   | CStream vers kind macsize suite bytes_sent seq ops recs =>
     match run_ops (model_conn vers kind macsize suite bytes_sent seq) ops [] with
     | Some wire => list_eqb rec_eqb (parse_recs (S (length recs)) wire (kind =? 4)) recs
+    | None => false
+    end
+  | CEmpty vers kind macsize pattern delivered errored =>
+    let tx := model_conn vers kind macsize 4865 0 1 in
+    match pattern_wire tx pattern [] with
+    | Some wire =>
+      let '(got, err) := read_all (2 + 2 * length pattern) (reader_of tx) wire 0 in
+      (got =? delivered) && Bool.eqb err errored
     | None => false
     end
   end.
